@@ -104,7 +104,7 @@ def build(case):
             theta_funcs[n] = (lambda g, s=shape, a=a, b=b: raw(s, g, a, b))
         elif variant == "int_constant":
             # the dependence function returns a python int (whatever the conditioning value is)
-            ival = max(1, int(round(a + 1)))
+            ival = int(round(a)) + 2
             d = DependenceFunction(_int_const(ival))
             theta_funcs[n] = (lambda g, v=ival: float(v))
         elif variant == "partial_defaults":
